@@ -332,3 +332,57 @@ def run_zmat(chk, rng, ncases, grounds=(None, None, 'ideal'), cases=None, tol=1e
     chk.stages['zmat'] = dict(cases=len(cases), real_ok=len(good), real_errors=len(errs), compared=len(res), entries=nent,
                               disagreements=nbad, worst_rel_to_max=worst)
     return good, errs
+
+# ------------------------------------------------------------------ nf
+def run_nf(chk, rng, ncases, grounds=(None, None, 'ideal'), tol=1e-8, maxp=22, families=None):
+    import gen as _g
+    cases = []
+    for i in range(ncases):
+        g = rng.choice(grounds)
+        cases.append(dict(id=i, seed=rng.randrange(10 ** 9), spec=_g.gen_antenna(rng, ground=g, family=(rng.choice(families) if families else None))))
+    good, errs = _run_generic(chk, 'topo.nf', cases, 'nf')
+    good = [r for r in good if 0 < len(r['obs']['pulses']) <= maxp]
+    if not all(vo_ok(f) for f in ('Corr/ZDriver.v', 'Model/NearField.v', 'Model/Kernel.v')):
+        chk.tie_broken('correspondence', 'nf', 'model (Model/NearField.v) does not compile')
+        return good, errs
+    global HEADER
+    def mk(r):
+        o = r['obs']
+        _ctr[0] += 1
+        nm = 'objs_%d' % _ctr[0]
+        radii = coq_list([F(g['r']) for g in o['geos']])
+        return 'Definition %s := %s.\nEval vm_compute in (nf_case %s %s %s %s %s %s %s %s %s).' % (
+            nm, coq_objs(o), F(o['f']), F(o['tol']), 'true' if o['ground'] else 'false', nm, radii,
+            coq_list([cxl(v) for v in o['cur']]), F(o['power']), F(o['pwr']), coq_list([v3(p) for p in o['pts']]))
+    saved = HEADER
+    HEADER = ZHEADER.replace('Model.ZMatrix', 'Model.ZMatrix Model.NearField')
+    try:
+        res = _eval_groups(chk, 'nf', good, mk)
+    finally:
+        HEADER = saved
+    nbad = npts = 0; worst = 0.0
+    for r in good:
+        if r['id'] not in res:
+            continue
+        o = r['obs']
+        v = parse_floats(res[r['id']][0][0])
+        if len(v) != 12 * len(o['pts']):
+            chk.tie_broken('correspondence', 'nf', 'case %d: model returned %d numbers for %d points' % (r['id'], len(v), len(o['pts']))); nbad += 1; continue
+        E = [[complex(float.fromhex(a), float.fromhex(b)) for a, b in e] for e in o['E']]
+        H = [[complex(float.fromhex(a), float.fromhex(b)) for a, b in e] for e in o['H']]
+        emax = max([abs(c) for e in E for c in e] + [1e-300]); hmax = max([abs(c) for e in H for c in e] + [1e-300])
+        bad = []
+        for k in range(len(o['pts'])):
+            npts += 1
+            for c in range(3):
+                me = complex(v[12 * k + 2 * c], v[12 * k + 2 * c + 1]); mh = complex(v[12 * k + 6 + 2 * c], v[12 * k + 6 + 2 * c + 1])
+                ee = abs(me - E[k][c]) / emax; eh = abs(mh - H[k][c]) / hmax
+                worst = max(worst, ee, eh)
+                if not ee <= tol or not eh <= tol:
+                    bad.append('point %d component %d: E code %r model %r; H code %r model %r' % (k, c, E[k][c], me, H[k][c], mh))
+        if bad:
+            nbad += 1
+            chk.notes.setdefault('failing_specs', []).append(r['spec'])
+            chk.tie_broken('correspondence', 'nf', 'case %d (%s): %s' % (r['id'], r['spec']['family'], bad[0]))
+    chk.stages['nf'] = dict(cases=len(cases), real_ok=len(good), real_errors=len(errs), compared=len(res), points=npts, disagreements=nbad, worst_rel_to_max=worst)
+    return good, errs
